@@ -55,18 +55,20 @@ def replay_cases(recs):
                 t.keys.add(("closed", tuple(q0), tuple(u), k, dt))
                 ar = F.AngularRate(frequency=1.0 / dt)
                 q = g_unit(q0)
-                for _ in range(k):
-                    q = np.asarray(ar.update(q, w, method="closed"), dtype=float)
+                for i_ in range(k):
+                    # the option is accepted in any letter case (the code lower-cases it to validate it)
+                    q = np.asarray(ar.update(q, w, method=("closed", "Closed", "CLOSED")[i_ % 3]), dtype=float)
                     t.calls += 1
                 d = maxdiff(q, want)
                 t.resid("closed", d)
                 if not d <= 1e-13 * (k + 1):
                     t.fail("C08|AngularRate.update(closed)|not-q0*r^k", {"q0": q0, "u": u, "k": k, "dt": dt, "got": q, "want": want})
                 # batch route, explicit dt, and one step of k*dt
-                Q = np.asarray(F.AngularRate(gyr=np.tile(w, (k + 1, 1)), q0=g_unit(q0), Dt=dt).Q, dtype=float)
-                t.calls += 1
-                if not maxdiff(Q[-1], want) <= 1e-13 * (k + 1):
-                    t.fail("C08|AngularRate(gyr).Q|not-q0*r^k", {"q0": q0, "u": u, "k": k, "dt": dt, "got": Q[-1], "want": want})
+                for spelled in ("closed", "Closed"):
+                    Q = np.asarray(F.AngularRate(gyr=np.tile(w, (k + 1, 1)), q0=g_unit(q0), Dt=dt, method=spelled).Q, dtype=float)
+                    t.calls += 1
+                    if not maxdiff(Q[-1], want) <= 1e-13 * (k + 1):
+                        t.fail("C08|AngularRate(gyr).Q|not-q0*r^k", {"q0": q0, "u": u, "k": k, "dt": dt, "method": spelled, "got": Q[-1], "want": want})
                 one = np.asarray(ar.update(g_unit(q0), w, method="closed", dt=k * dt), dtype=float)
                 t.calls += 1
                 if not maxdiff(one, want) <= 1e-13 * (k + 1):
@@ -92,6 +94,25 @@ def replay_cases(recs):
                     ("EKF.f", lambda: (lambda x: x / np.linalg.norm(x))(F.EKF().f(fq.copy(), gyr, dt)), want),
                     ("ROLEQ.attitude_propagation", lambda: F.ROLEQ().attitude_propagation(fq.copy(), gyr, dt), want),
                     ("AngularRate.update(series,1)", lambda: F.AngularRate(Dt=dt).update(fq.copy(), gyr, method="series", order=1), want),
+                    ("AngularRate.update(Series,1)", lambda: F.AngularRate(Dt=dt).update(fq.copy(), gyr, method="Series", order=1), want),
+                ]
+                # one object, first asked with an explicit step, then without: the second call advances by the object's own step
+                other_dt = dt * 5.0
+                mg = np.array([20.0, 1.0, 40.0])
+                cj = np.array([1, -1, -1, -1])
+
+                def twice(obj, call, conj=False):
+                    q_in = fq.copy() * cj if conj else fq.copy()
+                    call(obj, q_in.copy(), other_dt)
+                    out = np.asarray(call(obj, q_in.copy(), None), dtype=float)
+                    return out * cj if conj else out
+                routes += [
+                    ("Madgwick.updateIMU[after an explicit dt]", lambda: twice(F.Madgwick(Dt=dt), lambda o, q_, d_: o.updateIMU(q_, gyr, zero) if d_ is None else o.updateIMU(q_, gyr, zero, dt=d_)), want),
+                    ("Madgwick.updateMARG[after an explicit dt]", lambda: twice(F.Madgwick(Dt=dt), lambda o, q_, d_: o.updateMARG(q_, gyr, zero, mg) if d_ is None else o.updateMARG(q_, gyr, zero, mg, dt=d_)), want),
+                    ("Mahony.updateIMU[after an explicit dt]", lambda: twice(F.Mahony(Dt=dt), lambda o, q_, d_: o.updateIMU(q_, gyr, zero) if d_ is None else o.updateIMU(q_, gyr, zero, dt=d_)), want),
+                    ("Mahony.updateMARG[after an explicit dt]", lambda: twice(F.Mahony(Dt=dt), lambda o, q_, d_: o.updateMARG(q_, gyr, zero, mg) if d_ is None else o.updateMARG(q_, gyr, zero, mg, dt=d_)), want),
+                    ("AQUA.updateIMU[after an explicit dt]", lambda: twice(F.AQUA(Dt=dt), lambda o, q_, d_: o.updateIMU(q_, gyr, zero) if d_ is None else o.updateIMU(q_, gyr, zero, dt=d_), conj=True), want),
+                    ("AQUA.updateMARG[after an explicit dt]", lambda: twice(F.AQUA(Dt=dt), lambda o, q_, d_: o.updateMARG(q_, gyr, zero, mg) if d_ is None else o.updateMARG(q_, gyr, zero, mg, dt=d_), conj=True), want),
                 ]
                 for name, fn, wv in routes:
                     t.calls += 1
